@@ -257,13 +257,17 @@ func checkC06(r *Run) {
 		rng := newRng(r.Seed, fmt.Sprint("c06rt", i))
 		g := &tsrun{rng: rng}
 		var c tsCase
-		switch i % 5 {
+		switch i % 7 {
 		case 0, 1:
 			c = g.EnumCase()
 		case 2:
 			c = g.NamespaceCase()
 		case 3:
 			c = g.ClassCase()
+		case 4:
+			c = g.DecoratorCase()
+		case 5:
+			c = g.ImportEqualsCase()
 		default:
 			c = g.EnumCase()
 		}
